@@ -38,26 +38,9 @@ theorem alignTable_pos : AlignTable.Pos Spec.alignTable := by
 /-- `pad[tcode](x)` is the padding rule of the specification, for every type code and every offset. -/
 theorem padLenOf_code (t : Ty) (x : Nat) :
     padLenOf t.code x = .ok (padLen (Spec.alignTable t.code) x) := by
-  unfold padLenOf
-  rw [lookup_align]
-  simp only [Gen.Wire.maxPad, padLen]
-  rcases align_cases t with h | h | h | h <;> rw [h]
-  · simp [Nat.mod_one]
-  · by_cases h2 : x % 2 = 0
-    · simp [h2]
-    · have : 2 - x % 2 ≤ 7 := by omega
-      have h3 : (2 - x % 2) % 2 = 2 - x % 2 := by omega
-      simp [h2, this, h3]
-  · by_cases h2 : x % 4 = 0
-    · simp [h2]
-    · have : 4 - x % 4 ≤ 7 := by omega
-      have h3 : (4 - x % 4) % 4 = 4 - x % 4 := by omega
-      simp [h2, this, h3]
-  · by_cases h2 : x % 8 = 0
-    · simp [h2]
-    · have : 8 - x % 8 ≤ 7 := by omega
-      have h3 : (8 - x % 8) % 8 = 8 - x % 8 := by omega
-      simp [h2, this, h3]
+  have h := padOK_gen t x
+  simp only [genAlign, lookup_align, Option.getD_some] at h
+  exact h
 
 theorem padOK_spec : PadOK Spec.alignTable := padLenOf_code
 
